@@ -274,7 +274,18 @@ func (g *Gen) call(x ssa.Value, cc *ssa.CallCommon, st *State) {
 	post := g.env(st, vars)
 	post.old = pre
 	for _, e := range ct.Ensures {
-		g.assume(st, post.tr(e).S)
+		// a clause about the callee's own ghost bindings cannot be stated at a caller: it is dropped (weaker assumption)
+		func() {
+			defer func() {
+				if r := recover(); r != nil {
+					if _, ok := r.(specErr); ok {
+						return
+					}
+					panic(r)
+				}
+			}()
+			g.assume(st, post.tr(e).S)
+		}()
 	}
 	for gname, rname := range ct.Bind {
 		if gv, ok := g.params[gname]; ok {
